@@ -323,3 +323,8 @@ Definition extrude_cells_t (nv : nat) (cells : list nat) (t : mat nat) : mat nat
   let blocks := map (fun l => map (map (fun v => v + l * nv)) t ++ map (map (fun v => v + nv + l * nv)) t) cells in
   map (fun i => concat (map (fun blk => nth i blk []) blocks)) (seq 0 (2 * length t)).
 
+
+(* the lookup keys of to_meshtri are computed in fixed-width signed integer arithmetic: what v0 * nv + v1 becomes in `bits` bits *)
+Definition wrap_signed (bits : nat) (z : Z) : Z :=
+  ((z + 2 ^ Z.of_nat (bits - 1)) mod 2 ^ Z.of_nat bits - 2 ^ Z.of_nat (bits - 1))%Z.
+Definition facet_key_machine (bits nv : nat) (f : list nat) : Z := wrap_signed bits (Z.of_nat (facet_key nv f)).
